@@ -21,4 +21,126 @@ def aws_add_u64_saturating (a b : Nat) : Nat := let (s, cf) := addw 64 a b; if c
 def aws_add_u32_checked (a b : Nat) : Res := let (s, cf) := addw 32 a b; if cf then .err 5 else .ok s
 def aws_add_u32_saturating (a b : Nat) : Nat := let (s, cf) := addw 32 a b; if cf then 0xFFFFFFFF else s
 
+/-! ## what the hand model was written against
+
+The shape of every asm statement of `math.gcc_x64_asm.inl` — assembler template, operands (symbolic name, constraint,
+C expression), clobbers, the registers the template names literally (`%%reg`), the registers its instructions use
+implicitly (one-operand `mul` writes `rdx:rax`), and the C statements around it (`ASM` marks the statement) — as it
+was when the definitions above were written.  `gen/math_asm.py` re-extracts the same table from the header on every
+run (`Gen/MathAsmShapes.lean`) and `Props/C16.lean` proves the two literally equal; so any textual change of an asm
+statement makes the check fail until this model has been re-read against it.
+
+Reading of the templates (AT&T order `op src, dst`):
+* `mulq/mull X`: `rdx:rax := rax * X`, `CF = OF = (high half ≠ 0)` — operands pinned by `"+&a"`, `"=&d"`;
+* `addq/addl X, Y`: `Y := Y + X`, `CF` = carry out;
+* `cmovc S, R`: `R := S` if `CF`;  `jnc L; mov $0xFFFFFFFF, %%eax; L:` : `eax := 0xFFFFFFFF` if `CF` — correct only if
+  the operand holding the result *is* `eax`, i.e. its constraint is exactly `a` (`regsPinned` below);
+* `seto/setc F`: `F := OF / CF`. -/
+
+structure AsmOperand where
+  name : String
+  constraint : String
+  expr : String
+deriving Repr, DecidableEq
+
+structure AsmShape where
+  template : String
+  outputs : List AsmOperand
+  inputs : List AsmOperand
+  clobbers : List String
+  hardRegs : List String
+  implicitRegs : List String
+  context : String
+deriving Repr, DecidableEq
+
+def expectedShapes : List (String × AsmShape) := [
+  ("aws_mul_u64_saturating",
+   { template := "mulq %q[arg2]\ncmovc %q[saturate], %%rax\n",
+     outputs := [⟨"", "+&a", "a"⟩, ⟨"", "=&d", "rdx"⟩],
+     inputs := [⟨"arg2", "r", "b"⟩, ⟨"saturate", "rm", "~0LL"⟩],
+     clobbers := ["cc"],
+     hardRegs := ["rax"],
+     implicitRegs := ["rax", "rdx"],
+     context := "uint64_t aws_mul_u64_saturating(uint64_t a, uint64_t b) { uint64_t rdx; ASM; (void)rdx; return a; }" }),
+  ("aws_mul_u64_checked",
+   { template := "mulq %q[arg2]\nseto %[flag]\n",
+     outputs := [⟨"", "+&a", "result"⟩, ⟨"flag", "=&d", "flag"⟩],
+     inputs := [⟨"arg2", "r", "b"⟩],
+     clobbers := ["cc"],
+     hardRegs := [],
+     implicitRegs := ["rax", "rdx"],
+     context := "int aws_mul_u64_checked(uint64_t a, uint64_t b, uint64_t *r) { char flag; uint64_t result = a; ASM; *r = result; if (flag) { return aws_raise_error(AWS_ERROR_OVERFLOW_DETECTED); } return AWS_OP_SUCCESS; }" }),
+  ("aws_mul_u32_saturating",
+   { template := "mull %k[arg2]\njnc .1f%=\nmov $0xFFFFFFFF, %%eax\n.1f%=:",
+     outputs := [⟨"", "+&a", "a"⟩, ⟨"", "=&d", "edx"⟩],
+     inputs := [⟨"arg2", "r", "b"⟩],
+     clobbers := ["cc"],
+     hardRegs := ["eax"],
+     implicitRegs := ["eax", "edx"],
+     context := "uint32_t aws_mul_u32_saturating(uint32_t a, uint32_t b) { uint32_t edx; ASM; (void)edx; return a; }" }),
+  ("aws_mul_u32_checked",
+   { template := "mull %k[arg2]\nseto %[flag]\n",
+     outputs := [⟨"", "+&a", "result"⟩, ⟨"flag", "=&d", "flag"⟩],
+     inputs := [⟨"arg2", "r", "b"⟩],
+     clobbers := ["cc"],
+     hardRegs := [],
+     implicitRegs := ["eax", "edx"],
+     context := "int aws_mul_u32_checked(uint32_t a, uint32_t b, uint32_t *r) { uint32_t result = a; char flag; ASM; *r = result; if (flag) { return aws_raise_error(AWS_ERROR_OVERFLOW_DETECTED); } return AWS_OP_SUCCESS; }" }),
+  ("aws_add_u64_checked",
+   { template := "addq %[argb], %[arga]\nsetc %[flag]\n",
+     outputs := [⟨"arga", "+r", "a"⟩, ⟨"flag", "=&r", "flag"⟩],
+     inputs := [⟨"argb", "r", "b"⟩],
+     clobbers := ["cc"],
+     hardRegs := [],
+     implicitRegs := [],
+     context := "int aws_add_u64_checked(uint64_t a, uint64_t b, uint64_t *r) { char flag; ASM; *r = a; if (flag) { return aws_raise_error(AWS_ERROR_OVERFLOW_DETECTED); } return AWS_OP_SUCCESS; }" }),
+  ("aws_add_u64_saturating",
+   { template := "addq %[arg1], %[arg2]\ncmovc %q[saturate], %[arg2]\n",
+     outputs := [⟨"arg2", "+r", "b"⟩],
+     inputs := [⟨"arg1", "r", "a"⟩, ⟨"saturate", "rm", "~0LL"⟩],
+     clobbers := ["cc"],
+     hardRegs := [],
+     implicitRegs := [],
+     context := "uint64_t aws_add_u64_saturating(uint64_t a, uint64_t b) { ASM; return b; }" }),
+  ("aws_add_u32_checked",
+   { template := "addl %[argb], %[arga]\nsetc %[flag]\n",
+     outputs := [⟨"arga", "+r", "a"⟩, ⟨"flag", "=&r", "flag"⟩],
+     inputs := [⟨"argb", "r", "b"⟩],
+     clobbers := ["cc"],
+     hardRegs := [],
+     implicitRegs := [],
+     context := "int aws_add_u32_checked(uint32_t a, uint32_t b, uint32_t *r) { char flag; ASM; *r = a; if (flag) { return aws_raise_error(AWS_ERROR_OVERFLOW_DETECTED); } return AWS_OP_SUCCESS; }" }),
+  ("aws_add_u32_saturating",
+   { template := "addl %[arg1], %[arg2]\njnc .1f%=\nmov $0xFFFFFFFF, %%eax\n.1f%=:",
+     outputs := [⟨"arg2", "+a", "b"⟩],
+     inputs := [⟨"arg1", "r", "a"⟩],
+     clobbers := ["cc"],
+     hardRegs := ["eax"],
+     implicitRegs := [],
+     context := "uint32_t aws_add_u32_saturating(uint32_t a, uint32_t b) { ASM; return b; }" })]
+
+/-- x86-64 register name → its GCC machine-constraint letter (all widths of the same register) -/
+def regLetter (r : String) : Option Char :=
+  if r ∈ ["rax", "eax", "ax", "al"] then some 'a'
+  else if r ∈ ["rdx", "edx", "dx", "dl"] then some 'd'
+  else if r ∈ ["rcx", "ecx", "cx", "cl"] then some 'c'
+  else if r ∈ ["rbx", "ebx", "bx", "bl"] then some 'b'
+  else if r ∈ ["rsi", "esi", "si", "sil"] then some 'S'
+  else if r ∈ ["rdi", "edi", "di", "dil"] then some 'D'
+  else none
+
+/-- the constraint without its modifiers (`+ = & %`) -/
+def constraintCore (c : String) : List Char := c.toList.filter (fun ch => !(ch == '+' || ch == '=' || ch == '&' || ch == '%'))
+
+/-- a register written by the template (named literally or used implicitly) is *pinned*: some output operand's
+constraint is exactly that register's letter (so the compiler must place the operand there and knows it is
+written), or the register is declared clobbered -/
+def regPinned (s : AsmShape) (r : String) : Bool :=
+  match regLetter r with
+  | none => s.clobbers.contains r
+  | some l => s.outputs.any (fun o => constraintCore o.constraint == [l]) ||
+      s.clobbers.any (fun c => regLetter c == some l)
+
+def regsPinned (s : AsmShape) : Bool := (s.hardRegs ++ s.implicitRegs).all (regPinned s)
+
 end AwsVerif.MathAsm
